@@ -299,8 +299,10 @@ func (dec *xmlDecoder) decodeXML(root *xmlNode) error {
 				log.Debug("chardata [%v] for %v", elem.n.Data, elem.label)
 			}
 		case xml.EndElement:
-			if elem == nil {
-				log.Debug("no element, probably bad xml")
+			if elem == nil || elem.parent == nil {
+				// a closing tag that closes nothing (with raw tokens the xml library does not
+				// check nesting): ignore it and stay on the root element
+				log.Debug("no element to close, probably bad xml")
 				continue
 			}
 			log.Debug("end element %v", elem.label)
